@@ -381,6 +381,20 @@ func (tr *FnCtx) loopSpec(li *loopInfo) *LoopSpec {
 }
 
 func (tr *FnCtx) seenVars(li *loopInfo, st *State, env map[string]*Val) {
+	for _, other := range tr.loopOf {
+		if other == li || !other.blocks[li.header] {
+			continue
+		}
+		for _, in := range other.header.Instrs {
+			if nx, ok := in.(*ssa.Next); ok {
+				if rg, ok := nx.Iter.(*ssa.Range); ok {
+					if c, ok := tr.rangeSeen[rg]; ok {
+						env[fmt.Sprintf("$seen%d", other.ordinal)] = &Val{T: nil, GhostElem: tBool, A: []string{tr.cur(st, c)}}
+					}
+				}
+			}
+		}
+	}
 	// $seen: ghost set of the map-range iterator whose Next is in this loop's header
 	for _, in := range li.header.Instrs {
 		if nx, ok := in.(*ssa.Next); ok {
@@ -395,6 +409,7 @@ func (tr *FnCtx) seenVars(li *loopInfo, st *State, env map[string]*Val) {
 
 func (tr *FnCtx) loopEntry(li *loopInfo, st *State, entryVals map[*ssa.Phi]*Val) {
 	ls := tr.loopSpec(li)
+	li.preState = st.clone()
 	if ls == nil {
 		if tr.Spec != nil {
 			tr.note(fmt.Sprintf("loop %d has no invariant (treated as 'true')", li.ordinal))
@@ -410,6 +425,17 @@ func (tr *FnCtx) loopEntry(li *loopInfo, st *State, entryVals map[*ssa.Phi]*Val)
 }
 
 func (tr *FnCtx) loopAssume(li *loopInfo, st *State) {
+	// automatic frame invariants: entry obligation (on the state before the havoc) and assumption
+	if li.preState != nil {
+		saved := li.havocked
+		for _, f := range tr.autoFrame(li, li.preState) {
+			tr.oblige(fmt.Sprintf("%s/loop%d/frame-entry", tr.Short, li.ordinal), "frame", f, "automatic loop frame: components not listed in modifies are unchanged on pre-existing objects")
+		}
+		li.havocked = saved
+		for _, f := range tr.autoFrame(li, st) {
+			tr.assume(f)
+		}
+	}
 	ls := tr.loopSpec(li)
 	if ls == nil {
 		return
@@ -423,6 +449,14 @@ func (tr *FnCtx) loopAssume(li *loopInfo, st *State) {
 }
 
 func (tr *FnCtx) loopBack(li *loopInfo, from *ssa.BasicBlock, st *State) {
+	{
+		saved := tr.guard
+		tr.guard = tr.edgeCond(from, li.header)
+		for _, f := range tr.autoFrame(li, st) {
+			tr.oblige(fmt.Sprintf("%s/loop%d/frame-preserved", tr.Short, li.ordinal), "frame", f, "automatic loop frame: components not listed in modifies are unchanged on pre-existing objects")
+		}
+		tr.guard = saved
+	}
 	ls := tr.loopSpec(li)
 	if ls == nil {
 		return
@@ -570,7 +604,50 @@ func (tr *FnCtx) havocLoop(li *loopInfo, st *State) {
 		if k == "$alloc" {
 			tr.assume("(>= " + nw + " " + old + ")")
 		}
+		li.havocked = append(li.havocked, c)
 	}
+}
+
+// autoFrame: for a function with a modifies clause, every component a loop may change and that the
+// clause does not list must stay unchanged on the objects that existed at function entry. These
+// automatic invariants are assumed at the loop head and proved at entry and on every back edge.
+func (tr *FnCtx) autoFrame(li *loopInfo, st *State) []string {
+	if tr.Spec == nil || !tr.Spec.HasMod || tr.Spec.Trusted {
+		return nil
+	}
+	if tr.modTab == nil {
+		tr.modTab = tr.modTable(tr.Spec, tr.Pkg)
+	}
+	var out []string
+	for _, c := range li.havocked {
+		if frameExempt(c.Name) || !strings.HasPrefix(c.Sort, "(Array") {
+			continue
+		}
+		me := tr.modTab[c.Name]
+		if me != nil && me.whole {
+			continue
+		}
+		var objs []string
+		if me != nil {
+			env := tr.newEnv(tr.entry, tr.entry, tr.params)
+			ok := true
+			for _, oe := range me.objs {
+				func() {
+					defer func() {
+						if recover() != nil {
+							ok = false
+						}
+					}()
+					objs = append(objs, env.eval(oe).A[0])
+				}()
+			}
+			if !ok {
+				continue
+			}
+		}
+		out = append(out, tr.sameOn(tr.cur(st, c), tr.cur(tr.entry, c), c.Sort, tr.allocEntry, objs))
+	}
+	return out
 }
 
 // ---------------------------------------------------------------- lock discipline
@@ -672,7 +749,7 @@ func (tr *FnCtx) lockAccess(st *State, p *Val, write bool, in ssa.Instruction) {
 				}
 			}
 		}
-		exempt := "(ite (< " + p.Loc.Obj + " 0) (>= (elemB " + p.Loc.Obj + ") " + tr.allocEntry + ") " + not(sel(pub, p.Loc.Obj)) + ")"
+		exempt := "(or " + not(sel(pub, p.Loc.Obj)) + " (and (< " + p.Loc.Obj + " 0) (>= (elemB " + p.Loc.Obj + ") " + tr.allocEntry + ")))"
 		desc = fmt.Sprintf("%s of %s.%s", rw(write), shortType(tk), p.Loc.Prefix)
 		if lc.immutable[fkey] || lc.immutable[full] {
 			if !write {
@@ -842,6 +919,15 @@ func (tr *FnCtx) callMods(c *ssa.CallCommon) ([]Comp, bool) {
 		}
 	}
 	if h := externFor(f.String()); h != nil {
+		if f.String() == "sort.Sort" {
+			for _, in := range []ssa.Instruction{} {
+				_ = in
+			}
+			if mi, ok := c.Args[0].(*ssa.MakeInterface); ok {
+				_ = mi
+			}
+			return tr.sortSortModsCommon(c)
+		}
 		if strings.HasPrefix(f.String(), "sort.") && len(c.Args) > 0 {
 			var sv ssa.Value = c.Args[0]
 			if mi, ok := sv.(*ssa.MakeInterface); ok {
@@ -1421,4 +1507,26 @@ func (tr *FnCtx) appendSlice(st *State, s, t *Val, et types.Type, resT types.Typ
 	rbase := tr.define(tr.fresh("abase"), "Int", ite(inplace, base, nb))
 	roff := tr.define(tr.fresh("aoff"), "Int", ite(inplace, off, "0"))
 	return &Val{T: resT, A: []string{rbase, roff, "(+ " + ln + " " + n + ")", ite(inplace, cp, ncap)}}
+}
+
+func (tr *FnCtx) sortSortModsCommon(c *ssa.CallCommon) ([]Comp, bool) {
+	mi, ok := c.Args[0].(*ssa.MakeInterface)
+	if !ok {
+		return nil, true
+	}
+	ms := tr.W.Prog.MethodSets.MethodSet(mi.X.Type())
+	for i := 0; i < ms.Len(); i++ {
+		if ms.At(i).Obj().Name() == "Swap" {
+			fn := tr.W.Prog.MethodValue(ms.At(i))
+			if fn == nil || fnPkg(fn) == nil {
+				return nil, true
+			}
+			spec := tr.W.C.Funcs[pkgKey(fnPkg(fn).Pkg.Path(), fnRelName(fn))]
+			if spec == nil {
+				return nil, true
+			}
+			return tr.specMods(spec, fnPkg(fn).Pkg)
+		}
+	}
+	return nil, true
 }
